@@ -61,8 +61,15 @@ def main():
                 continue
         t0 = time.time()
         fired = {}
-        for pr in props:
-            r = subprocess.run([os.path.join(V, "vf"), "check", pr], env=env, stdout=subprocess.PIPE, stderr=subprocess.STDOUT, text=True)
+        # one check first (it re-extracts the facts of the patched tree under the cache lock), the rest in parallel
+        from concurrent.futures import ThreadPoolExecutor
+
+        def one(pr):
+            return pr, subprocess.run([os.path.join(V, "vf"), "check", pr], env=env, stdout=subprocess.PIPE, stderr=subprocess.STDOUT, text=True)
+        outs = [one(props[0])]
+        with ThreadPoolExecutor(max_workers=int(os.environ.get("VFMUT_JOBS", "6"))) as ex:
+            outs += list(ex.map(one, props[1:]))
+        for pr, r in outs:
             if r.returncode == 1:
                 fired[pr] = [l.strip() for l in r.stdout.splitlines() if l.strip().startswith("rule ")]
             elif r.returncode != 0:
